@@ -12,7 +12,9 @@
       fail-freeness hypothesis: an answer of the model is enough), totality per ordered type,
       unordered types error, no panic;
    5. laziness: early exit of == and <, hidden fields, length test first, lexicographic arrays;
-   6. the six operators and std.equals / std.__compare / std.__compare_array / std.primitiveEquals. *)
+   6. the six operators and std.equals / std.__compare / std.__compare_array / std.primitiveEquals;
+   7. == is transitive on all trees (answers suffice); SFcompare on the doubles produced by
+      f_of_bits is the order of their exact values (integers after scaling by 2^1074). *)
 From Coq Require Import List NArith ZArith Lia Bool Floats.SpecFloat.
 From RJ Require Import Base.Outcome Base.F64 Model.Utf8Order Model.Compare Proofs.Utf8Order_proofs.
 Import ListNotations.
@@ -1008,3 +1010,160 @@ Qed.
 
 Theorem f64_eqb_iff x y : f_is_finite x = true -> f_is_finite y = true -> (f_eqb x y = true <-> fnorm x = fnorm y).
 Proof. intros Hx Hy. apply f_eqb_iff; now apply finite_nn. Qed.
+
+(* ---------------------------------------------------------------- == is transitive on all trees *)
+(* no JSON-value hypothesis: two answers `true` are enough, whatever the hidden or unvisited parts are *)
+Definition eq_trans_at (a : lval) : Prop := forall b c, wf a -> wf b -> wf c ->
+  equals a b = Ok true -> equals b c = Ok true -> equals a c = Ok true.
+
+Lemma f_eqb_trans x y z : f_eqb x y = true -> f_eqb y z = true -> f_eqb x z = true.
+Proof.
+  rewrite !f_eqb_compare. intros H1 H2.
+  destruct (f_compare x y) as [[]|] eqn:E1; try discriminate.
+  destruct (f_compare y z) as [[]|] eqn:E2; try discriminate.
+  now rewrite (f_compare_gtrans x y z Eq Eq Eq E1 E2 eq_refl).
+Qed.
+
+Lemma str_eqb_trans s t u : str_eqb s t = true -> str_eqb t u = true -> str_eqb s u = true.
+Proof. unfold str_eqb. rewrite !list_eqb_iff. congruence. Qed.
+
+Lemma eq_items_true_inv x xs y ys : eq_items (x :: xs) (y :: ys) = Ok true ->
+  equals x y = Ok true /\ eq_items xs ys = Ok true.
+Proof.
+  cbn [eq_items]. intros H. apply obind_ok in H as (r & E & H). destruct r; [auto | discriminate].
+Qed.
+
+Lemma eq_items_trans xs : Forall eq_trans_at xs -> forall ys zs,
+  Forall wf xs -> Forall wf ys -> Forall wf zs -> length xs = length ys -> length ys = length zs ->
+  eq_items xs ys = Ok true -> eq_items ys zs = Ok true -> eq_items xs zs = Ok true.
+Proof.
+  induction 1 as [|x xs Hx _ IH]; intros [|y ys] [|z zs] Wx Wy Wz L1 L2 H1 H2; try discriminate; try reflexivity.
+  apply eq_items_true_inv in H1 as [E1 R1]. apply eq_items_true_inv in H2 as [E2 R2].
+  inversion Wx; inversion Wy; inversion Wz; subst.
+  cbn [eq_items]. rewrite (Hx y z) by assumption. cbn [obind]. cbn in L1, L2. injection L1 as L1. injection L2 as L2. apply (IH ys zs); auto.
+Qed.
+
+Lemma equals_obj_true aa fa ab fb : NoDup (map fname fb) -> equals (LObj aa fa) (LObj ab fb) = Ok true ->
+  vis_names fa = vis_names fb /\
+  (vis_names fa = [] \/ (aa = None /\ ab = None /\ eq_items (vvals fa) (vvals fb) = Ok true)).
+Proof.
+  intros ND. rewrite (equals_obj_view _ _ _ _ ND).
+  destruct (names_eqb (vis_names fa) (vis_names fb)) eqn:En; [|discriminate].
+  apply names_eqb_iff in En. split; [assumption|].
+  destruct (vis_names fa); [now left|]. right.
+  destruct aa; [discriminate|]. destruct ab; [discriminate|]. auto.
+Qed.
+
+Theorem equals_trans_lazy a : eq_trans_at a.
+Proof.
+  induction a as [|x|x|s|xs IH|aa fa IH| |e] using lval_ind2; intros b c Wa Wb Wc H1 H2;
+    destruct b as [|y|y|t|ys|ab fb| |e']; try discriminate;
+    destruct c as [|z|z|u|zs|ac fc| |e'']; try discriminate; try reflexivity.
+  - cbn [equals] in *. injection H1 as H1. injection H2 as H2. f_equal.
+    apply Bool.eqb_prop in H1, H2. subst. apply Bool.eqb_reflx.
+  - cbn [equals] in *. injection H1 as H1. injection H2 as H2. f_equal. eapply f_eqb_trans; eauto.
+  - cbn [equals] in *. injection H1 as H1. injection H2 as H2. f_equal. eapply str_eqb_trans; eauto.
+  - rewrite equals_arr in *. inversion Wa; inversion Wb; inversion Wc; subst.
+    destruct (Nat.eqb (length xs) (length ys)) eqn:L1; [|discriminate].
+    destruct (Nat.eqb (length ys) (length zs)) eqn:L2; [|discriminate].
+    apply Nat.eqb_eq in L1, L2.
+    assert (L3 : Nat.eqb (length xs) (length zs) = true) by (apply Nat.eqb_eq; congruence). rewrite L3.
+    apply (eq_items_trans xs IH ys zs); auto.
+  - inversion Wa as [| | | | |? ? NDa Wfa| |]; inversion Wb as [| | | | |? ? NDb Wfb| |];
+      inversion Wc as [| | | | |? ? NDc Wfc| |]; subst.
+    apply (equals_obj_true _ _ _ _ NDb) in H1 as [N1 C1]. apply (equals_obj_true _ _ _ _ NDc) in H2 as [N2 C2].
+    rewrite (equals_obj_view _ _ _ _ NDc).
+    assert (En : names_eqb (vis_names fa) (vis_names fc) = true) by (apply names_eqb_iff; congruence). rewrite En.
+    destruct C1 as [C1|(-> & -> & C1)]; [now rewrite C1|].
+    destruct C2 as [C2|(_ & -> & C2)]; [rewrite N1, C2; reflexivity|].
+    destruct (vis_names fa) eqn:Ev; [reflexivity|]. cbn [run_asserts obind].
+    apply (eq_items_trans (vvals fa) (vvals_forall _ _ IH) (vvals fb) (vvals fc)); auto using vvals_forall;
+      rewrite !vvals_length, ?Ev; congruence.
+Qed.
+
+(* ---------------------------------------------------------------- the order of doubles is the order of their values *)
+Local Open Scope Z_scope.
+
+(* canonical finite doubles: what [f_of_bits] produces (subnormal / first binade: exponent -1074; else 53-bit mantissa) *)
+Definition canon (x : f64) : Prop :=
+  match x with
+  | S754_zero _ => True
+  | S754_finite _ m e => (e = -1074 /\ Z.pos m < 2 ^ 53) \/ (-1074 < e /\ 2 ^ 52 <= Z.pos m < 2 ^ 53)
+  | _ => False
+  end.
+
+(* the exact value, scaled by 2^1074 (an integer for every canonical double) *)
+Definition zval (x : f64) : Z :=
+  match x with
+  | S754_finite s m e => (if s then -1 else 1) * (Z.pos m * 2 ^ (e + 1074))
+  | _ => 0
+  end.
+
+Lemma pos_scaled m e : -1074 <= e -> 0 < Z.pos m * 2 ^ (e + 1074).
+Proof. intros H. apply Z.mul_pos_pos; [lia|]. apply Z.pow_pos_nonneg; lia. Qed.
+
+Lemma scaled_compare m1 e1 m2 e2 :
+  ((e1 = -1074 /\ Z.pos m1 < 2 ^ 53) \/ (-1074 < e1 /\ 2 ^ 52 <= Z.pos m1 < 2 ^ 53)) ->
+  ((e2 = -1074 /\ Z.pos m2 < 2 ^ 53) \/ (-1074 < e2 /\ 2 ^ 52 <= Z.pos m2 < 2 ^ 53)) ->
+  (Z.pos m1 * 2 ^ (e1 + 1074) ?= Z.pos m2 * 2 ^ (e2 + 1074)) =
+  match e1 ?= e2 with Lt => Lt | Gt => Gt | Eq => (m1 ?= m2)%positive end.
+Proof.
+  assert (Hlt : forall a ea b eb, -1074 <= ea -> ea < eb -> Z.pos a < 2 ^ 53 -> 2 ^ 52 <= Z.pos b ->
+                 Z.pos a * 2 ^ (ea + 1074) < Z.pos b * 2 ^ (eb + 1074)).
+  { intros a ea b eb Hea Hlt Ha Hb.
+    replace (eb + 1074) with ((eb - ea) + (ea + 1074)) by lia.
+    rewrite (Z.pow_add_r 2 (eb - ea) (ea + 1074)) by lia. rewrite Z.mul_assoc.
+    apply Z.mul_lt_mono_pos_r; [apply Z.pow_pos_nonneg; lia|].
+    assert (2 ^ 1 <= 2 ^ (eb - ea)) by (apply Z.pow_le_mono_r; lia).
+    change (2 ^ 1) with 2 in *. change (2 ^ 53) with (2 * 2 ^ 52) in Ha. nia. }
+  intros C1 C2. destruct (Z.compare_spec e1 e2) as [E|E|E].
+  - subst. rewrite <- Zmult_compare_compat_r; [reflexivity|]. apply Z.lt_gt. apply Z.pow_pos_nonneg; lia.
+  - apply Z.compare_lt_iff. apply Hlt; lia.
+  - apply Z.compare_gt_iff. apply Hlt; lia.
+Qed.
+
+Theorem f_compare_value x y : canon x -> canon y -> f_compare x y = Some (zval x ?= zval y).
+Proof.
+  unfold f_compare.
+  destruct x as [sx|sx| |sx mx ex], y as [sy|sy| |sy my ey]; cbn [canon]; intros Cx Cy; try contradiction.
+  - reflexivity.
+  - assert (P := pos_scaled my ey ltac:(lia)). cbn [SFcompare zval]. f_equal. symmetry.
+    destruct sy; [apply Z.compare_gt_iff | apply Z.compare_lt_iff]; lia.
+  - assert (P := pos_scaled mx ex ltac:(lia)). cbn [SFcompare zval]. f_equal. symmetry.
+    destruct sx; [apply Z.compare_lt_iff | apply Z.compare_gt_iff]; lia.
+  - assert (Px := pos_scaled mx ex ltac:(lia)). assert (Py := pos_scaled my ey ltac:(lia)).
+    pose proof (scaled_compare mx ex my ey Cx Cy) as S.
+    cbn [SFcompare zval]. f_equal. destruct sx, sy.
+    + set (A := Z.pos mx * 2 ^ (ex + 1074)) in *. set (B := Z.pos my * 2 ^ (ey + 1074)) in *.
+      replace (-1 * A) with (- A) by lia. replace (-1 * B) with (- B) by lia.
+      rewrite Z.compare_opp, (Z.compare_antisym A B), S.
+      destruct (ex ?= ey); reflexivity.
+    + symmetry. apply Z.compare_lt_iff. lia.
+    + symmetry. apply Z.compare_gt_iff. lia.
+    + set (A := Z.pos mx * 2 ^ (ex + 1074)) in *. set (B := Z.pos my * 2 ^ (ey + 1074)) in *.
+      replace (1 * A) with A by lia. replace (1 * B) with B by lia. rewrite S. reflexivity.
+Qed.
+
+Lemma f_of_bits_canon b : f_is_finite (f_of_bits b) = true -> canon (f_of_bits b).
+Proof.
+  unfold f_of_bits.
+  set (ex := Z.land (Z.shiftr (Z.of_N b) 52) 2047). set (mant := Z.land (Z.of_N b) (2 ^ 52 - 1)).
+  assert (Hm : 0 <= mant < 2 ^ 52).
+  { unfold mant. change (2 ^ 52 - 1) with (Z.ones 52). rewrite Z.land_ones by lia. apply Z.mod_pos_bound. lia. }
+  assert (He : 0 <= ex).
+  { unfold ex. apply Z.land_nonneg. right. lia. }
+  cbv zeta.
+  destruct (ex =? 0) eqn:E0.
+  - destruct mant as [|p|p] eqn:Em; cbn; auto. intros _. left. split; [reflexivity|]. lia.
+  - destruct (ex =? 2047) eqn:E1.
+    + destruct (mant =? 0); cbn; discriminate.
+    + apply Z.eqb_neq in E0. destruct (mant + 2 ^ 52) as [|p|p] eqn:Ep; cbn; try discriminate.
+      intros _. destruct (Z.eq_dec ex 1) as [->|N1].
+      * left. split; [reflexivity|]. lia.
+      * right. lia.
+Qed.
+
+Corollary f_compare_bits_value a b :
+  f_is_finite (f_of_bits a) = true -> f_is_finite (f_of_bits b) = true ->
+  f_compare (f_of_bits a) (f_of_bits b) = Some (zval (f_of_bits a) ?= zval (f_of_bits b)).
+Proof. intros Ha Hb. apply f_compare_value; now apply f_of_bits_canon. Qed.
